@@ -97,7 +97,10 @@ static int N, NT, NE, NR, SHORT_CONFLICT, RUNNING;
  * annotate() as tags so that a recorded finding can be keyed by them, generated only on request (knob `shapes`) */
 enum { SHP_MIXLOCAL = 1,        /* one flow instance, consumers on the producer's rank, differing [type = ..] on the output dependencies (none counts) */
        SHP_DIFFDEST = 2,        /* one task instance whose outputs go to differing sets of remote ranks */
-       SHP_PACKEDMIX = 4 };     /* one flow instance sends to one remote rank (a) an output that is received there with two datatypes (packed
+       SHP_PACKEDMIX = 4,
+       SHP_MULTIOUT = 8 };      /* annotation only ("multiout=1"), never normalised away: one flow instance sends several outputs (distinct
+                                 * (type, type_remote) on the producer's side) to one remote rank, so the receiver releases the dependencies of its
+                                 * stand-in for the remote task several times through one repo entry (findings/typed/stale_future_two_outputs.plan) */     /* one flow instance sends to one remote rank (a) an output that is received there with two datatypes (packed
                                  * reception, converted per consumer) and (b) another output */
 static int SHAPES, VICTIM_SHORT, VICTIM_MIX, VICTIM_PACKED;
 static unsigned DROPPED;            /* classes switched off by the normalisation of the plan (shapes that were not asked for) */
@@ -281,6 +284,7 @@ static void build_model(void)
                 else if (g_itr[g] != d->itr) packed_group = g;
                 g_last[g] = s;
             }
+            if (ngroups > 1) SHAPES |= SHP_MULTIOUT;
             if (packed_group >= 0 && ngroups > 1) {
                 /* the normalisation keeps the packed reception and removes a consumer of another output */
                 SHAPES |= SHP_PACKEDMIX;
@@ -666,11 +670,11 @@ static void annotate(const hx_plan_t *p, char *buf, size_t n)
     if (nr > hx_rank_count) nr = hx_rank_count;
     analyse(p);
     long bc = EFF_BCAST;
-    snprintf(buf, n, "[program=%s sched=%s threads=%ld ranks=%ld N=%ld NT=%ld short=%ld mt=%ld bcast=%ld shapes=%s%s%s%s]", TYPED_PROGS[hx_knob(p, "prog", 0) % TYPED_NPROGS].name,
+    snprintf(buf, n, "[program=%s sched=%s threads=%ld ranks=%ld N=%ld NT=%ld short=%ld mt=%ld bcast=%ld shapes=%s%s%s%s multiout=%d]", TYPED_PROGS[hx_knob(p, "prog", 0) % TYPED_NPROGS].name,
              SCHEDS[hx_knob(p, "sched", 0) % NSCHED], hx_knob(p, "nthreads", 2), nr, hx_knob(p, "N", 3), hx_knob(p, "NT", 2), EFF_SHORT, hx_knob(p, "thread_multiple", -1), bc,
              (SHAPES & SHP_MIXLOCAL) ? "+mixed-local-types" : "", ((SHAPES & SHP_DIFFDEST) && bc != 0 && bc != 2) ? "+differing-dest-sets-chain" : "",
              (SHAPES & SHP_PACKEDMIX) ? "+packed-reception-with-other-output" : "",
-             ((SHAPES & (SHP_MIXLOCAL | SHP_PACKEDMIX)) || ((SHAPES & SHP_DIFFDEST) && bc != 0 && bc != 2)) ? "" : "none");
+             ((SHAPES & (SHP_MIXLOCAL | SHP_PACKEDMIX)) || ((SHAPES & SHP_DIFFDEST) && bc != 0 && bc != 2)) ? "" : "none", (SHAPES & SHP_MULTIOUT) ? 1 : 0);
 }
 static void describe_abort(char *buf, size_t n)
 {
